@@ -15,9 +15,10 @@ var shutdownPoints = []string{"", "close.mid", "event.prepost", "feed.registered
 var activitySets = [][]string{
 	{"writers"}, {"feeds", "writers"}, {"views", "writers"}, {"expiry"}, {"expiry", "writers"}, {"touch"},
 	{"feeds"}, {"views"}, {"writers", "feeds", "views", "expiry"}, {"mass-expiry"}, {"mass-expiry", "writers"},
+	{"ddocs"}, {"ddocs", "writers", "views"},
 }
 
-func shutdownScenario(c *sup.Ctx, r *rng.R) {
+func shutdownScenario(c *sup.Ctx, r *rng.R, race bool) {
 	s := &life.ShutdownScenario{
 		Disk:         c.Local%2 == 1,
 		Handles:      1 + (c.Local/2)%2,
@@ -26,6 +27,10 @@ func shutdownScenario(c *sup.Ctx, r *rng.R) {
 		Point:        shutdownPoints[r.Intn(len(shutdownPoints))],
 		Nth:          1 + r.Intn(6),
 		StaleSibling: (c.Local/8)%3 == 2,
+	}
+	if race {
+		// fewer scenarios run under the race detector: walk through all activity sets instead of in blocks of 16
+		s.Activity = activitySets[(c.Local*5+3)%len(activitySets)]
 	}
 	for _, a := range s.Activity {
 		if a == "mass-expiry" && c.Local%3 != 0 {
@@ -64,11 +69,11 @@ func init() {
 		Rule:        "child worker processes run shutdown scenarios: {writers, feed start-up and delivery, non-stale and updateAfter view queries, documents expiring in 1-2 s, Touch-introduced expiry} in flight (in a third of the scenarios after a bucket of the same name and URL was deleted and while its leftover handle is closed) while {Close of every handle, Close of one of several, CloseAndDelete, DropDataStore} fires after a PRNG delay or at the n-th hit of a hook point (close.mid, event.prepost, feed.registered, view.update, txn.postcommit, cas.between, expiry.fire); every API call runs under recover() (a panic in the caller's goroutine is a witness), a panic in a background goroutine kills the worker (the supervisor records stderr and the scenario), calls that do not return within 20 s are reported with the rosmar functions blocked on locks, an unrelated bucket and (where the store survives) a fresh handle must keep working, the worker waits past every armed expiry deadline, and after the store is shut down the goroutine profile must hold no dcpFeed.run / runExpiry / updateView goroutine; also under the race detector; cell = (shutdown call, activities, hook point, bucket type, handles)",
 		Assumptions: []string{"'never deadlocks' is decided as 'no call exceeded 20 s with goroutines waiting on rosmar locks'; shorter stalls are not reported", "schedules are sampled; hook points place the shutdown inside the named windows"},
 		Parts: []sup.Part{
-			{Name: "shutdown-scenarios", Timeout: 120 * time.Second, Count: func(t string) int { return tierN(t, 352, 5000) }, Run: func(c *sup.Ctx) {
-				shutdownScenario(c, rng.New(c.Seed, rng.HashString("C20"), uint64(c.Local)))
+			{Name: "shutdown-scenarios", Timeout: 120 * time.Second, Count: func(t string) int { return tierN(t, 416, 6000) }, Run: func(c *sup.Ctx) {
+				shutdownScenario(c, rng.New(c.Seed, rng.HashString("C20"), uint64(c.Local)), false)
 			}},
 			{Name: "shutdown-scenarios-race", Race: true, Timeout: 180 * time.Second, Count: func(t string) int { return tierN(t, 72, 600) }, Run: func(c *sup.Ctx) {
-				shutdownScenario(c, rng.New(c.Seed, rng.HashString("C20race"), uint64(c.Local)))
+				shutdownScenario(c, rng.New(c.Seed, rng.HashString("C20race"), uint64(c.Local)), true)
 			}},
 		},
 		RaceOwner: raceOwner("C20"),
